@@ -1,8 +1,9 @@
 import Acra.Gen.Src.Golay
 import Acra.Model.Golay
 import Acra.Lemmas.SrcTieGolay
+import Acra.Lemmas.SrcTieNorm
 namespace Acra.Props.C11
-open Acra Acra.Py Acra.Lemmas.SrcTieGolay
+open Acra Acra.Py Acra.Lemmas.SrcTieGolay Acra.Lemmas.SrcTieNorm
 
 /-! Source ties (C11): the Golay helpers, regenerated from the current Python source by `harness/translate.py` on
     every run (see `Props/C07/SrcTie.lean`). -/
@@ -16,6 +17,16 @@ theorem src_Golay_init_Table :
   apply foldl_table 4096 (fun x => (Model.Golay.encodeEntry x : Int))
   intro T x hx
   simp only [setAt_natCast, intAt_natCast]
+  -- the bit test of the row loop, in whatever form it is written, is brought to `(x >> (11 - i)) & 1` for the twelve
+  -- indices the loop visits
+  rw [foldl_congr_mem _ (fun (T : List Int) (i : Int) =>
+      if band (shr (x : Int) (11 - i)) 1 ≠ 0 then T.set x (bxor (T.getD x 0) (intAt Gen.Src.Golay.G_P i)) else T)
+    (Py.range 12) _ (by
+      intro T i hi
+      obtain ⟨n, hn, rfl⟩ := mem_range_lit 12 12 _ rfl hi
+      first
+        | rfl
+        | (simp only [bit_forms x n hn]))]
   rw [foldl_cell x (fun i => band (shr (x : Int) (11 - i)) 1 ≠ 0) (fun a i => bxor a (intAt Gen.Src.Golay.G_P i))
     _ _ (by simpa using hx)]
   simp only [List.getD_eq_getElem?_getD, List.getElem?_set_self hx, Option.getD_some, List.set_set,
